@@ -33,7 +33,9 @@ ClausesC01(r) ==
                  Cl("stored-form", r.stored = IF r.store_native THEN ns ELSE ss),
                  Cl("slim-native-slim-identity", r.sns = r.slim),
                  Cl("native-slim-native-zeroes-masked", r.nsn = ns),
-                 Cl("payload-independent", r.payload_ok) >>
+                 Cl("payload-independent", r.payload_ok),
+                 \* masking the object further / rebuilding from its native form leaves what it reports unchanged
+                 Cl("forms-unchanged-by-deriving-a-child", r.parent_ok) >>
       [] r.api = "structure1d" ->
            \* 1D: only the two round trips are claimed
            << Cl("1d-slim-native-slim-identity", r.sns = r.slim),
